@@ -75,6 +75,7 @@ class JobLog:
         self.seeds_handed = []   # ("lammps"|"turtlemd", value)
         self.move_gens = {}      # id(generator) -> ens_num     (the job's move streams)
         self.eng_gens = {}       # id(generator) -> ens_num     (the job's engine streams)
+        self.tmd = []            # (TurtleMD integrator class, "ran" | "typeerror", seed drawn before?) per real propagate
 
 
 LOG = None     # the JobLog of the job that is running (None: nothing is logged)
@@ -315,15 +316,26 @@ class World:
                 undo = world._watch_seeds(e, eng, log)
                 log.in_engine += 1
                 log.in_prop += 1
+                n_seed0 = sum(1 for it in log.items if it[0] == "D" and str(it[3]).startswith("seed:"))
                 try:
                     with warnings.catch_warnings(), contextlib.redirect_stdout(io.StringIO()):
                         warnings.simplefilter("ignore")
                         real_pf(name + "_scratch", scratch, system.copy(), ens_set, msg_file, reverse=reverse)
-                except ValueError as ex:
-                    if "random generator" in str(ex):
+                    if eng == "turtlemd":
+                        log.tmd.append((e.c07["integrator"], "ran", True))
+                except RuntimeError as ex:
+                    # the ONLY exception that is passed over: the MD program is absent (`lmp` = `false`), after the
+                    # real method drew its seed and wrote run.inp; the frames come from the script
+                    if not (eng == "lammps" and "Execution of external program" in str(ex)):
                         raise
-                except Exception:  # noqa: BLE001   (LAMMPS absent; TurtleMD integrators that refuse `seed=`)
-                    pass
+                except TypeError as ex:
+                    # TurtleMD integrator classes that do not take `seed=`: the outcome is COMPARED with the model
+                    # (`JobDraws.tmdPropagate`, driver op `tmdprop`) — the real job dies here; the scripted frames
+                    # that follow are the what-if continuation and are judged like any other job
+                    if not (eng == "turtlemd" and "unexpected keyword argument 'seed'" in str(ex)):
+                        raise
+                    drew = sum(1 for it in log.items if it[0] == "D" and str(it[3]).startswith("seed:")) > n_seed0
+                    log.tmd.append((e.c07["integrator"], "typeerror", drew))
                 finally:
                     log.in_engine -= 1
                     log.in_prop -= 1
@@ -827,8 +839,15 @@ def judge(ctx, log, picked, mkind, ktag, err, rep):
 
 
 # ----------------------------------------------------------------------------- histories
+TMD_NAME = {"velocityverlet": "velocityverlet", "langevininertia": "langevininertia",
+            "langevinoverdamped": "langevinoverdamped", "verlet": "verlet"}
+
+
 def job_history(ctx, world, n_ens, workers, steps, seed, wf, eng_types, rng, label, outs, stop=None, plan=None,
-                image=None, weights=None, drawn=None):
+                image=None, weights=None, drawn=None, crash=False, consumed=None, lost=None):
+    """`crash=True`: the segment ends AFTER the job that follows the `stop`-th completion was issued and run — the
+    image is the file on disk, which does not record that job (it is lost: `lost` collects its streams).
+    `consumed`: stream id -> job key of every job whose result was handed to treat_output, over the whole chain."""
     """one scheduler-shaped history of the real REPEX_state in which every issued job is RUN (real select_shoot
     on the real picked dict) before its result is handed back"""
     import copy
@@ -865,6 +884,12 @@ def job_history(ctx, world, n_ens, workers, steps, seed, wf, eng_types, rng, lab
         line = model_line(md["pin"], kinds, move, log, world, info)
         sim.emit(line, ans, "jobdraws")
         jobinfo[len(sim.lines) - 1] = ({e: dict(p["eng_idx"]) for e, p in md["picked"].items()}, rep)
+        # model says "the integrator is built" <=> the real constructor call did not raise (TurtleMD `seed=`)
+        for integ, outcome, drew in sorted(set(log.tmd)):
+            sim.emit(f"tmdprop {TMD_NAME.get(integ, integ)} 5:1,0,0", f"{outcome} {'seed:1000000000' if drew else '-'}", "tmdprop")
+            ctx.hit(f"c07_tmd_propagate:{integ}:{outcome}")
+        md["c07_streams"] = [(e, p["pn_old"], sid_str(p["ens"]["rgen"]), sid_str(p["rgen-eng"]))
+                             for e, p in md["picked"].items()]
         st = ans.split()[2] if ans.startswith("ok ") else ans
         ctx.count(1, c07_job_move=move["kind"], c07_job_status=f"{move['kind']}:{st}",
                   c07_job_kinds="+".join(sorted(set(info["kinds"].values()))))
@@ -890,14 +915,36 @@ def job_history(ctx, world, n_ens, workers, steps, seed, wf, eng_types, rng, lab
             if guard > 10 * steps + 50 or not inflight:
                 raise RuntimeError("scheduler loop did not end / nothing in flight")
             md = inflight.pop(rng.randrange(len(inflight)))
+            if consumed is not None:
+                # the result of this job is consumed: over the whole chain no other consumed job had its streams
+                key = tuple((e, pn) for (e, pn, _a, _b) in md.get("c07_streams", []))
+                for (e, pn, a, b) in md.get("c07_streams", []):
+                    for sid in (a, b):
+                        if sid in consumed and consumed[sid] != key:
+                            ctx.fail("C07:crash:consumed-jobs-share-stream",
+                                     f"stream {sid} of the completed job {key} was the stream of the completed job "
+                                     f"{consumed[sid]} earlier in the chain", {"job_draws": label, "plan": plan,
+                                                                                 "stream": sid, "ctxseed": ctx.seed})
+                        consumed.setdefault(sid, key)
             md = sim.op_treat(md, md.pop("c07_status"), sim.random_new_weights(md, rng))
             sim.op_dump()
-            if stop is not None and sim.st.cstep >= stop:
+            if stop is not None and sim.st.cstep >= stop and not crash:
                 sim.image = T.read_image(sim.tmp)
                 sim.weights_by_pn = {pn: v["weights"] for pn, v in sim.st.traj_data.items()}
                 break
             if sim.st.cstep + sim.st.workers <= sim.st.tsteps:
                 inflight.append(issue(md))
+                if stop is not None and sim.st.cstep >= stop and crash:
+                    # the process dies while that job runs: the file on disk is the one of the last completion
+                    sim.image = T.read_image(sim.tmp)
+                    sim.weights_by_pn = {pn: v["weights"] for pn, v in sim.st.traj_data.items()}
+                    on_file = {tuple(str(p) for p in rec[1]) for rec in sim.image.get("locked", [])}
+                    for job in inflight:
+                        key = tuple(str(pn) for (_e, pn, _a, _b) in job["c07_streams"])
+                        if key not in on_file and lost is not None:
+                            lost.append(job["c07_streams"])
+                    ctx.hit(f"c07_job_chain:crash_after_issue:lost={sum(1 for j in inflight if tuple(str(pn) for (_e, pn, _a, _b) in j['c07_streams']) not in on_file)}")
+                    break
     except Exception as e:  # noqa: BLE001
         error = e
     sim.close()
@@ -938,14 +985,29 @@ def job_chain(ctx, world, n_ens, segs, steps, seed, wf, eng_types, label, outs, 
     no generator; jobs in flight at a stop are re-issued and RUN again"""
     image = weights = None
     drawn = {}
-    for k, (workers, stop) in enumerate(segs):
+    consumed, lost_all = {}, []
+    for k, seg in enumerate(segs):
+        workers, stop = seg[0], seg[1]
+        crash = len(seg) > 2 and seg[2] == "crash"
         lab = f"{label} segment={k}"
+        lost = []
         sim = job_history(ctx, world, n_ens, workers, steps, seed, wf, eng_types, _pyrandom.Random(lab), lab, outs,
-                          stop=stop, plan=plan, image=image, weights=weights, drawn=drawn)
+                          stop=stop, plan=plan, image=image, weights=weights, drawn=drawn, crash=crash,
+                          consumed=consumed, lost=lost)
+        lost_all += lost
         if stop is None or sim.image is None:
             break
         image, weights = sim.image, sim.weights_by_pn
         ctx.hit(f"c07_job_chain:restart_with_{len(image.get('locked', []))}_in_flight")
+    # observation (not a violation): the streams of a job lost in a crash are handed out again; count whether the
+    # job that got them is the same (ensemble, path) job or another one
+    for streams in lost_all:
+        for (e, pn, a, _b) in streams[:1]:
+            if a in consumed:
+                same = consumed[a] == tuple((e2, pn2) for (e2, pn2, _x, _y) in streams)
+                ctx.count(1, c07_crash_lost_job="streams-reissued-to-" + ("same-job" if same else "different-job"))
+            else:
+                ctx.count(1, c07_crash_lost_job="streams-not-consumed-in-this-chain")
 
 
 def compare_history(ctx, sim, label, jobinfo):
@@ -1027,10 +1089,59 @@ def engine_calls(ctx, work):
                             ctx.fail(f"C07:{KIND_ENGINE[kind]}:draw-outside-job-stream",
                                      f"{kind} {call}: draw on generator {it[2]}, not engine.rgen", rep)
         shutil.rmtree(work / f"calls_{kind}", ignore_errors=True)
+    # TurtleMD: one real propagate per integrator class, with and without engine.rgen — does the constructor call
+    # `self.integrator(…, seed=seed)` go through?  (model: JobDraws.tmdPropagate)
+    try:
+        world = World(ctx, work / "calls_tmd3", ["turtlemd", "turtlemd", "turtlemd"], 1)
+    except Exception as ex:  # noqa: BLE001
+        ctx.hit(f"c07_engcall_build_error:turtlemd3:{err_kind(ex)}")
+        world = None
+    if world is not None:
+        System = world.mods["System"]
+        from infretis.classes.path import Path as InfPath
+        for name, lst_ in world.engines.items():
+            e = lst_[0]
+            integ = e.c07["integrator"]
+            e.exe_dir = str(work / "calls_tmd3" / f"exe_{name}")
+            os.makedirs(e.exe_dir, exist_ok=True)
+            for has in (True, False):
+                gen = T.ScriptedGen(np.random.PCG64(np.random.SeedSequence(5, spawn_key=(1, 0, 0))))
+                if has:
+                    e.rgen = gen
+                elif hasattr(e, "rgen"):
+                    del e.rgen
+                log = JobLog()
+                log.eng_gens[id(gen)] = 0
+                world.script = Script({"kind": "sh", "kick": 1, "back": [1], "forw": [1]})
+                src, idx = world.src["turtlemd"]
+                s = System()
+                s.set_pos((src, idx))
+                s.order, s.ekin, s.vel_rev = [0.5], 1.0, False
+                ens_set = {"interfaces": [0.0, 0.25, 1.0], "ens_name": "c07", "tis_set": {}}
+                LOG = log
+                real = None
+                try:
+                    with contextlib.redirect_stdout(io.StringIO()), warnings.catch_warnings():
+                        warnings.simplefilter("ignore")
+                        e.propagate(InfPath(maxlen=3), ens_set, s, reverse=False)
+                except ValueError as ex:
+                    real = "norgen" if "random generator" in str(ex) else "harness:" + err_kind(ex)
+                except Exception as ex:  # noqa: BLE001
+                    real = "harness:" + err_kind(ex) + ":" + str(ex)[:80]
+                finally:
+                    LOG = None
+                if real is None:
+                    outs_ = sorted(set(log.tmd))
+                    real = " ".join(f"{o} {'seed:1000000000' if drew else '-'}" for (_i, o, drew) in outs_) or "nothing-recorded"
+                lines.append(f"tmdprop {TMD_NAME.get(integ, integ)} " + ("5:1,0,0" if has else "-"))
+                reals.append(real)
+                reps.append({"engine_call": "propF", "kind": "turtlemd", "integrator": integ, "has_rgen": has})
+                ctx.count(1, c07_engcall=f"turtlemd/{integ}:propF:{'rgen' if has else 'no-rgen'}:{real.split()[0]}")
+        shutil.rmtree(work / "calls_tmd3", ignore_errors=True)
     if ctx._driver_ok and lines:
         for ln, rl, md, rep in zip(lines, reals, ctx.driver(lines), reps):
             if rl.strip() != md.strip():
-                ctx.disagree(rep, rl, md, "draws of one engine call vs JobDraws.engDraws")
+                ctx.disagree(rep, rl, md, "draws of one engine call vs JobDraws.engDraws / tmdPropagate")
 
 
 # ----------------------------------------------------------------------------- entry point
@@ -1057,6 +1168,11 @@ CHAINS_QUICK = [
     # (kinds, instances, n_ens, [(workers, stop)…], steps, wf)
     (["turtlemd"], 2, 4, [(2, 3), (2, 6), (2, None)], 10, False),
     (["lammps", "lammps"], 2, 3, [(2, 2), (1, None)], 7, True),
+]
+# segments (workers, stop, "crash"): the process dies AFTER the job following the stop-th completion was issued and run
+CHAINS_CRASH = [
+    (["turtlemd"], 2, 4, [(2, 3, "crash"), (1, 6, "crash"), (2, None)], 12, False),
+    (["lammps"], 3, 4, [(3, 2, "crash"), (3, 5), (2, None)], 12, False),
 ]
 CHAINS_MORE = [
     (["ase1", "ase0"], 2, 4, [(3, 3), (2, 6), (3, None)], 12, False),
@@ -1094,7 +1210,8 @@ def run_jobs(ctx):
                                 _pyrandom.Random(label), label, outs,
                                 plan=[kinds, n_inst, n_ens, workers, steps, wf, seed, label])
                 shutil.rmtree(work / f"w{pi}", ignore_errors=True)
-            for ci, (kinds, n_inst, n_ens, segs, steps, wf) in enumerate(CHAINS_QUICK if ctx.quick else CHAINS_QUICK + CHAINS_MORE):
+            for ci, (kinds, n_inst, n_ens, segs, steps, wf) in enumerate(CHAINS_QUICK + CHAINS_CRASH if ctx.quick
+                                                                         else CHAINS_QUICK + CHAINS_CRASH + CHAINS_MORE):
                 try:
                     world = World(ctx, work / f"c{ci}", kinds, n_inst)
                 except Exception as ex:  # noqa: BLE001
@@ -1119,6 +1236,10 @@ def run_jobs(ctx):
         "the absent lmp executable) and their draws, seeds and noise are what is compared; GROMACS / CP2K propagation "
         "and gmx's own gen_vel are stand-ins that draw nothing (external programs)",
         "C07 job traces: numpy's Langevin noise of one ASE propagate call is one request (`noise`), its length is not modelled",
+        "C07 job traces: the only exception of a real _propagate_from that is passed over is the RuntimeError of the absent "
+        "LAMMPS executable; TurtleMD integrator classes that do not take `seed=` (VelocityVerlet, LangevinOverdamped of the "
+        "installed turtlemd) raise TypeError after the seed was drawn — that outcome is compared with the model "
+        "(JobDraws.tmdPropagate, op tmdprop), the scripted frames after it are a what-if continuation",
     ]
 
 
